@@ -18,10 +18,11 @@ from __future__ import annotations
 
 import core
 import renderlib as R
+from props import c01_ident as I
 from props import c01_sessions as S
 
 LEVEL = "proof"
-EXTRA_TARGETS = ["model/RenderTie.vo", "model/RenderSessionTie.vo"]
+EXTRA_TARGETS = ["model/RenderTie.vo", "model/RenderSessionTie.vo", "model/TermIdentTie.vo"]
 
 TERMS = {"iterm2": ["konsole", "wezterm", "iterm2", ""], "kitty": [""], "block": [""]}
 
@@ -129,11 +130,13 @@ def nontrivial(c):
 
 def run(ctx):
     rng = ctx.rng
-    sessions = []
+    sessions, idents = [], []
     if ctx.replay:
         cases = [ctx.replay["replay"]["case"]]
         if "session" in cases[0]:
             cases, sessions = [], cases
+        elif "ident" in cases[0]:
+            cases, idents = [], cases
     else:
         n = 260 if ctx.quick else 5000
         cases = corpus() + [gen_case(rng) for _ in range(n)]
@@ -143,6 +146,13 @@ def run(ctx):
         sessions = S.corpus() + [S.gen_session(srng) for _ in range(110 if ctx.quick else 1500)]
         if not ctx.quick:
             sessions += S.every_position(S.small_scenarios())
+        # terminal-identity cases: their own stream as well
+        irng = __import__("random").Random(rng.getrandbits(64))
+        idents = I.corpus() + [I.gen_case(irng) for _ in range(120 if ctx.quick else 2500)]
+    # the identity cases are judged concurrently with the rest (own driver processes, own Coq shards)
+    from concurrent.futures import ThreadPoolExecutor
+    ipool = ThreadPoolExecutor(max_workers=1)
+    ifuture = ipool.submit(I.judge, idents, "c01i") if idents else None
     codes, lexerr, impl, errors = R.evaluate(cases, "c01") if cases else ([], [], [], [])
     mismatches, failures = [], []
     hist = {"style": {}, "method": {}, "term": {}, "cells": {}, "alpha": {}}
@@ -215,9 +225,53 @@ def run(ctx):
                 mismatches.append({"case": S.concrete(c, r), "code": v["code"], "step": v["step"],
                                    "explain": S.explain(c, v, r, "c01s") if len(mismatches) < 3 else ""})
     hist["sessions"] = shist
+    # ---- terminal identity: the quirk mode is DETECTED by the library from what the terminal reports, by whatever
+    # route; the render is judged under the conventions of the terminal the identity denotes
+    ihist = {"cases": len(idents), "style": {}, "terminal": {}, "route": {}, "built": 0, "StyleError": 0, "class": {},
+             "kitty_frames": 0}
+    if idents:
+        iverdicts, iimpl, ierrors = ifuture.result()
+        ipool.shutdown()
+        errors = errors + ierrors
+        for c, v, r in zip(idents, iverdicts, iimpl):
+            ihist["style"][c["style"]] = ihist["style"].get(c["style"], 0) + 1
+            t = str(c["ident"].get("name"))
+            ihist["terminal"][t] = ihist["terminal"].get(t, 0) + 1
+            ops = [op for op in c.get("route", [])]
+            forced_last = {}
+            for op in ops:
+                if op["op"] == "force":
+                    forced_last[op["cls"]] = op["val"]
+            shape = ("forced " if any(forced_last.values()) else "") + \
+                    ("checked-before" if any(op["op"] == "check" for op in ops) else "construction-is-first-use") + \
+                    (" cache-cleared" if any(op["op"] == "clear" for op in ops) else "")
+            ihist["route"][shape] = ihist["route"].get(shape, 0) + 1
+            ihist["class"][c["cls"]] = ihist["class"].get(c["cls"], 0) + 1
+            ihist["built" if r.get("built") else "StyleError"] += 1
+            ihist["kitty_frames"] += bool(c.get("frame") and r.get("built"))
+            if r.get("built") and c.get("route"):
+                distinct.add(core.sig(["ident", c]))
+            if I.failing(v):
+                if sum(1 for f in failures if f.get("kind") == "ident") < 2:
+                    c2, v2, r2 = I.shrink(c, v, r, "c01i")
+                    why = v2["lexerr"] or ("render violates the rectangle contract UNDER THE CONVENTIONS OF THE TERMINAL THE IDENTITY "
+                                           "DENOTES " + I.explain(c2, r2, "c01i"))
+                else:
+                    c2, v2, r2, why = c, v, r, v["lexerr"] or "render violates the rectangle contract under the terminal's conventions"
+                failures.append({"kind": "ident",
+                                 "signature": core.sig(["ident", c2["style"], c2["ident"], c2.get("route"), c2["cls"], c2.get("args"),
+                                                        c2["cells"], bool(c2.get("frame"))]),
+                                 "what": f"{why} — {I.describe(c2, r2)}",
+                                 "replay": {"case": c2, "output": r2.get("out", "")[:3000]}})
+            elif v["code"] & 1:
+                mismatches.append({"case": c, "code": v["code"], "result": {k: r[k] for k in r if k not in ("out", "toks")},
+                                   "explain": I.explain(c, r, "c01i") if len(mismatches) < 3 else ""})
+    for f in failures:
+        f.pop("kind", None)
+    hist["identity"] = ihist
     return {
         "corr_name": "Block.render / GfxRender.{kitty,iterm2}_{lines,whole} (token models) == lexed real renders",
-        "evaluations": len(cases) + shist["completed"],
+        "evaluations": len(cases) + shist["completed"] + ihist["built"] + ihist["StyleError"],
         "distinct_nontrivial": len(distinct),
         "rule": "corpus (3 styles x 4 sizes x methods x terminal identities x mix) + random cases: image mode/size/content, "
                 "cells 1..12 x 1..8 (boundary-seeded w=1, h=1), cell sizes 1..20 x 1..40, method (case variants), mix, "
@@ -232,8 +286,15 @@ def run(ctx):
                 "the n-th call of StringIO.write, BytesIO.write/read, zlib compress, b64encode, PIL resize/convert/getdata/"
                 "tobytes/save/crop, get_fg_bg_colors); thorough: additionally EVERY line event of 13 small scenarios. Every "
                 "completed output is judged like a single render (scheck); a session is non-trivial when a completed request "
-                "follows an interrupted one.",
-        "samples": [R.describe(c) for c in cases[:1] + cases[-3:]] + [S.describe(c) for c in sessions[-2:]],
+                "follows an interrupted one.  TERMINAL IDENTITY: corpus (konsole 22.12 / wezterm / iterm2 / konsole 21.12 / xterm x 11 "
+                "routes x lines, whole; native anim and str(); kitty 0.30.1 / 0.25.1 / 0.25.0 / 0.19.3 / konsole / no graphics reply / "
+                "iterm2 x 6 routes x animation-frame arguments, caller arguments) + random cases: what the terminal reports "
+                "(name, version incl. boundary / unknown / unparsable versions; kitty: reply to the graphics query ok / error / DA1 "
+                "only / none), a route of 0..4 operations (is_supported() / forced_support = b / _supported = None on GraphicsImage, "
+                "the style class, a subclass, a sub-subclass), the class instantiated, method, mix, alpha, size, source; the quirk "
+                "mode is never assigned, the library detects it. Non-trivial: built after a non-empty route.",
+        "samples": [R.describe(c) for c in cases[:1] + cases[-3:]] + [S.describe(c) for c in sessions[-2:]]
+                   + [I.describe(c) for c in idents[-2:]],
         "histogram": hist,
         "mismatches": mismatches,
         "failures": failures,
@@ -245,6 +306,10 @@ def run(ctx):
             "payload bytes are abstracted to lengths (their content is C03's business)",
             "sessions: interruptions are delivered on line-event boundaries of term_image code (sys.settrace) or as an exception "
             "out of a call the render makes; a request whose injected fault was swallowed by the library counts as completed",
+            "terminal identity: what the terminal reports enters through get_terminal_name_version() (the stub of the test-suite) "
+            "and, for kitty, through query_terminal's return value; conventions of the terminal kinds (model/TermIdent.v views): "
+            "Konsole >= 22.04 puts the cursor at the beginning of the line below an inline image sent without doNotMoveCursor=1; "
+            "on WezTerm an image alone does not replace cell contents (mix=False demands erased cells); other identities: lib/Term.v",
         ],
         "trusted": ["harness/lexer.py (bytes -> tokens, fail-closed)"],
     }
